@@ -6,7 +6,7 @@
    observed by the correspondence scenarios. *)
 From Coq Require Import List Arith Bool.
 Import ListNotations.
-From SV Require Import Model.TokenSet Model.Accept Proofs.AcceptP.
+From SV Require Import Model.TokenSet Model.Accept Proofs.AcceptP Proofs.AcceptP2.
 
 (* C13.1  stopped_after_revoke: never before revocation; at that point the listener is closed and
    the accept loop has returned (both trees). *)
@@ -98,15 +98,15 @@ Theorem c13_scenario_oracle_sound :
   forall full n cs, oracle_c13_acc cs (scenario true full n cs) = true.
 Proof. exact oracle_c13_acc_sound_l. Qed.
 
-(* C13.7b  the connection-side oracle (after the revocation every completed response is followed by
-   the server closing that connection; totals never decrease) holds of the model for every
-   full-server scenario of at most 4 commands over the stated alphabet and n = 1, 2, by exhaustive
-   evaluation (finite domain; the unbounded statements are c13_inflight_completes,
-   c13_at_most_one_more_request and c13_closes_at_head_when_revoked above). *)
-Theorem c13_conn_oracle_sound_upto_4 :
-  forall n cs, In n [1; 2] -> length cs <= 4 -> Forall (fun c => In c c13_alphabet) cs ->
-    oracle_c13_conn cs (totals_cmds true true n (sim_init n) cs) = true.
-Proof. exact oracle_c13_conn_sound_upto_l. Qed.
+(* C13.7b  the connection-side oracle (the totals of completed responses and of connections closed by
+   the server never decrease; after the revocation every completed response is followed, before
+   the tasks settle, by the server closing that connection -- so no connection serves a second
+   further request) holds of the model for ALL scenarios, every n, both modes.  (Proved with a
+   measure showing that the settle loop, with the fuel it is given, leaves no connection at its loop
+   head, connection ids being unique.) *)
+Theorem c13_conn_oracle_sound :
+  forall full n cs, oracle_c13_conn cs (totals_cmds true full n (sim_init n) cs) = true.
+Proof. exact oracle_c13_conn_sound_l. Qed.
 
 (* C13.8  the tree before the repair of D10 violates stop_is_bounded: after max_conns clients
    have connected and gone idle and the permit is revoked, the accept task is parked in
@@ -139,5 +139,5 @@ Print Assumptions c13_others_leave_conn_alone.
 Print Assumptions c13_at_most_one_more_request.
 Print Assumptions c13_closes_at_head_when_revoked.
 Print Assumptions c13_scenario_oracle_sound.
-Print Assumptions c13_conn_oracle_sound_upto_4.
+Print Assumptions c13_conn_oracle_sound.
 Print Assumptions c13_stop_bounded_refuted.
